@@ -113,6 +113,61 @@ class WaitWalker(pathwalk.Walker):
                 st.events.append(('is-result', eq))
 
 
+def check_event_callbacks(ctx, fb, rule, which=('CallCallback', 'DropCallback', 'EventHelperCallback')):
+    """R-EVENTCALLBACK: the callback objects a wait / wait-group registers on the futures.
+       CallCallback<E>::Impl     counts the completion: exactly one Sub(1) on every path, and leaves the caller alone
+                                 (an attached future stays valid for its owner)
+       DropCallback<E>::Impl     releases the consumed core exactly once (caller.DecRef()) and counts exactly one
+       EventHelperCallback::Here/Next  (one per shared input) hands the completion on to the event's CallCallback"""
+    n = 0
+    for f in fb.fn.values():
+        if f.cfg is None or f.n != 'Impl' or f.clsq not in ('yaclib::detail::CallCallback',
+                                                              'yaclib::detail::DropCallback'):
+            continue
+        kind = f.clsq.split('::')[-1]
+        if kind not in which:
+            continue
+        key = 'R-EVENTCALLBACK %s::Impl' % kind
+        res = lib_core.CoreWalker(fb).run(f)
+        ctx.instance(rule, key + ' :: ' + f.cls[:100], dict(paths=len(res)))
+        n += 1
+        for st, _ in res:
+            calls = [e for e in st.events if e[0] == 'call']
+            subs = [c for c in f.calls() if c['cn'].split('::')[-1] == 'Sub']
+            nsub = len([e for e in calls if e[1].split('::')[-1] == 'Sub'])
+            ndec = len([e for e in st.events if e[0] == 'decref' or (e[0] == 'call' and e[1].split('::')[-1] == 'DecRef')])
+            amount = [(f.sn(c['args'][0]) or {}).get('v') for c in subs if c.get('args')]
+            if nsub != 1 or amount != [1]:
+                ctx.report(rule, key, f.where, 'a completing future must count exactly one unit out of the event (one '
+                           'Sub(1) on every path; saw %d call(s), amounts %s): the waiter is released early or never' % (
+                               nsub, amount), 'instantiation: ' + f.full[:300])
+                break
+            if kind == 'DropCallback' and ndec != 1:
+                ctx.report(rule, key, f.where, 'a consumed future must be released exactly once by its callback '
+                           '(caller.DecRef(); saw %d)' % ndec, 'instantiation: ' + f.full[:300])
+                break
+            if kind == 'CallCallback' and ndec:
+                ctx.report(rule, key, f.where, 'the callback of an attached (not consumed) future releases the caller: '
+                           'the future its owner still holds dangles', 'instantiation: ' + f.full[:300])
+                break
+    if 'EventHelperCallback' in which:
+        for f in fb.fn.values():
+            if f.cfg is None or f.clsq != 'yaclib::detail::EventHelperCallback' or f.n not in ('Here', 'Next'):
+                continue
+            key = 'R-EVENTCALLBACK EventHelperCallback::%s' % f.n
+            ctx.instance(rule, key + ' :: ' + f.cls[:100], None)
+            n += 1
+            fw = [c for c in f.calls() if c['cn'].split('::')[-1] == f.n and c['cn'] != f.qn]
+            rets = [x for x in f.own_nodes() if x['k'] == 'ReturnStmt' and x.get('ch')]
+            ok = len(fw) == 1 and len(rets) == 1 and fw[0]['i'] in ([f.strip(rets[0]['ch'][0])] +
+                                                                       list(f.descendants(rets[0]['ch'][0])))
+            if not ok:
+                ctx.report(rule, key, f.where, 'the per-input helper of a wait on shared futures does not hand the '
+                           'completion on to the event (return event->GetCall().%s(caller)): that input is never '
+                           'counted' % f.n, 'instantiation: ' + f.full[:300])
+    return n
+
+
 def check_wait_return(ctx, fb, rr):
     """R-WAITRETURN on every WaitRange instantiation (shared with C04: a wait that returns without last-one evidence
     obtained through the counter's acquiring RMW neither synchronises with the producers nor keeps the stack event alive
@@ -188,7 +243,11 @@ def run(ctx):
     ro = ctx.rule('R-ORDER', 'withdraw role orders', minimum=2)
     rwd = ctx.rule('R-WORD', 'withdraw role of _callback', minimum=2)
     rck = ctx.rule('R-CASKIND', 'withdraw CAS strong', minimum=1)
+    rec = ctx.rule('R-EVENTCALLBACK', 'the callback a wait registers counts exactly one unit per completing future and '
+                   'leaves the future alone; the per-input helper for shared futures forwards to it', minimum=4)
     for cfg, fb in sorted(fbs.items()):
+        if (ctx.guard(lambda: check_event_callbacks(ctx, fb, rec, ('CallCallback', 'EventHelperCallback'))) or 0) < 2:
+            ctx.guard(lambda: ctx.broken('R-EVENTCALLBACK: CallCallback / EventHelperCallback not instantiated'))
         ctx.guard(lambda: lib_order.check(ctx, fb, cfg, ['yaclib::detail::BaseCore::_callback'], rwd, ro, rck))
         ranges = ctx.guard(lambda: check_wait_return(ctx, fb, rr)) or []
         for f in ranges:
